@@ -43,6 +43,7 @@ verus! {
 // ================= code under contract, piece 1: the node constructor (as in rt_spans) =================
 // `.map(|c| match &c { .. })`: the closure body becomes `fn node_of_child(c)`; piece 2 calls it where the closure stood.
 //@extract fn bigtools/src/bbi/bbiwrite.rs get_rtreeindex
+//@rule R16
 //@presub /\A.*?\n[ \t]*\.map\(\|c\| (match &c \{.*?\n[ \t]*\})\)\s*\.collect\(\).*\Z/ => fn node_of_child(c: RTreeChildren) -> RTreeNode {\n    \1\n} min=1 count=1
 //@sub /(\w+)\.iter\(\)\s*\.map\(\|s\| \(s\.chrom, s\.end\)\)\s*\.max\(\)/ => max_end_of_sections(\1) min=0
 //@sub /(\w+)\s*\.iter\(\)\s*\.map\(\|n\| \(n\.end_chrom_idx, n\.end_base\)\)\s*\.max\(\)/ => max_end_of_children(\1) min=0
@@ -84,6 +85,7 @@ verus! {
 
 // ================= code under contract, piece 2: the whole function =================
 //@extract fn bigtools/src/bbi/bbiwrite.rs get_rtreeindex
+//@rule R16
 //@rule R8
 //@presub /pub\(crate\) fn get_rtreeindex<S>\(\s*sections_stream: S,/ => fn get_rtreeindex(\n    sections_stream: VIter<Section>, min=1
 //@presub /\nwhere\s+S: Iterator<Item = Section>,[ \t]*\n/ => \n min=1
